@@ -680,6 +680,14 @@ impl ISocket for RouterSocket {
     if !self.core.is_running() {
       return Err(ZmqError::InvalidState("Socket is closing".into()));
     }
+    // A message half read with recv() is finished first: return its unread frames.
+    if let Some(frames) = self.frame_recv_buffer.lock().take() {
+      if !frames.is_empty() {
+        let mut rest = FrameBatch::new();
+        rest.extend(frames);
+        return Ok(rest);
+      }
+    }
     let rcvtimeo_opt = self.core.core_state.read().options.rcvtimeo;
     let (pipe_read_id, raw_batch) = self.recv_logical_finalized(rcvtimeo_opt).await?;
     let (identity_blob, payload) = self.process_incoming_zmtp_message(pipe_read_id, raw_batch)?;
